@@ -426,10 +426,10 @@ func TestVerifC19Reader(t *testing.T) {
 	r.Rule("case = one seeded WAL-sync log written by LogWriter (2..5 blocks, thorough 2..8, and one log in four shorter than one block; record sizes 20..70000 mixed; every k-th record synced and awaited, k in {1,2,3,5}). " +
 		"Damage enumeration per log: for EVERY chunk of every block but the last, each of the 8 patterns once (single bit flip at a seeded bit of the chunk, zeroed chunk, zeroed 4KiB page, 1..200 bytes of garbage, " +
 		"length-field edit, type-field edit, log-number-field edit (incl. +1 and -1), sync-offset-field edit); for every chunk of the last block one seeded pattern; plus 40 seeded interior offsets (any region incl. padding) with bit flip / garbage / zeroed page. " +
-		"All damage stays inside one 32KiB block. An evaluation = one read of one damaged file; distinct non-trivial = (case, damaged chunk offset, pattern) where the file really changed and a witness (intact later chunk with SyncOffset >= end of damaged chunk) exists.")
+		"All damage stays inside one 32KiB block. An evaluation = one read of one damaged file; distinct non-trivial = (case, damaged block, pattern) with at least one read where the file really changed and a witness (intact later chunk with SyncOffset >= end of damaged chunk) exists.")
 	r.Assume("the harness chunk parser decides which chunk is damaged and which later chunks are intact witnesses; it is applied to the undamaged file written by the real writer, and parse disagreements are reported as harness-parse-error")
 	thorough := vcommon.Thorough()
-	n := vcommon.Scale(48, 4000)
+	n := vcommon.Scale(48, 1200)
 	var buf []byte
 	var capSame, capLater, capOther int
 	r.Cases(n, func(ci int, rng *rand.Rand) {
@@ -557,7 +557,7 @@ func TestVerifC19Reader(t *testing.T) {
 			}
 			r.Count("damaged_reads_witness_"+scope, 1)
 			if scope != "none" {
-				r.Distinct(ci, D.Off, kind)
+				r.Distinct(ci, D.block(), kind)
 			}
 			if detected {
 				r.Count("corruption_reported_witness_"+scope, 1)
